@@ -687,6 +687,32 @@ struct tree_sys
             ok = ok && ((its[x] == its[y]) == (x == y)) && ((its[x] != its[y]) == (x != y));
         }
         VRT_CHECK(ok, std::string("tree:pre_order_iterator_equality:") + what, "iterators at different positions of one pre_order traversal compare equal (or equal ones differ)");
+        // multi-pass: the iterators saved above are independent of the one that went on to the end -- walking on from
+        // the copy saved at position x yields the rest of the sequence, for every x and in any order of the walks
+        for (std::size_t x = its.size(); x-- > 0 && ok;)
+        {
+          std::vector<int> rest;
+          int f3 = 64;
+          for (auto i = its[x]; i != range.end() && f3 > 0; ++i, --f3)
+            rest.push_back((*i).value());
+          ok = rest == std::vector<int>(want.begin() + static_cast<std::ptrdiff_t>(x), want.end());
+        }
+        VRT_CHECK(ok, std::string("tree:pre_order_multipass:") + what, "walking on from a saved copy of a pre_order iterator does not yield the rest of the traversal");
+        if (ok && its.size() >= 2)
+        {
+          // two copies advanced in lockstep
+          auto a = range.begin(), b = range.begin();
+          std::vector<int> sa, sb;
+          int f4 = 64;
+          while (a != range.end() && b != range.end() && f4-- > 0)
+          {
+            sa.push_back((*a).value());
+            sb.push_back((*b).value());
+            ++a;
+            ++b;
+          }
+          VRT_CHECK(sa == want && sb == want, std::string("tree:pre_order_multipass:") + what, "two copies of begin() advanced in lockstep do not both yield the traversal");
+        }
       }
     }
     VRT_CHECK(fcppt::container::tree::depth(t) == rdepth(r), std::string("tree:depth:") + what, "depth %zu, model %zu",
@@ -745,6 +771,23 @@ struct tree_sys
         bool const save = links_ok;
         verify_links(mp, mr, nullptr, "map_result");
         links_ok = save && links_ok;
+      }
+      {
+        // map applies the function to the elements of the source tree itself (results that refer to their argument refer
+        // into the source), once per node
+        using ptree = fcppt::container::tree::object<int const *>;
+        int calls = 0;
+        ptree const mp = fcppt::container::tree::map<ptree>(const_cast<tree const &>(t), [&calls](int const &v) {
+          ++calls;
+          return &v;
+        });
+        std::vector<int const *> got, want;
+        for (ptree const &n : fcppt::container::tree::make_pre_order(mp))
+          got.push_back(n.value());
+        for (tree const &n : fcppt::container::tree::make_pre_order(const_cast<tree const &>(t)))
+          want.push_back(&n.value());
+        VRT_CHECK(got == want, "tree:map:identity", "map handed the function objects that are not the elements of the source tree");
+        VRT_CHECK(calls == static_cast<int>(want.size()), "tree:map:calls", "map called the function %d times for %zu nodes", calls, want.size());
       }
     }
   }
